@@ -1297,7 +1297,8 @@ extern "C" int nsim_sys_pthread_cond_timedwait (pthread_cond_t *c, pthread_mutex
 		if (ts->tv_nsec < 0 || ts->tv_nsec >= 1000000000L) return EINVAL;
 		if (ts->tv_sec < (time_t) (INT64_MAX / 2000000000LL)) {
 			has_dl = true;
-			dl = (int64_t) ts->tv_sec * 1000000000LL + ts->tv_nsec;
+			if (ts->tv_sec < -(time_t) (INT64_MAX / 2000000000LL)) dl = INT64_MIN / 2;      /* long before the epoch: expired */
+			else dl = (int64_t) ts->tv_sec * 1000000000LL + ts->tv_nsec;
 		}
 	}
 	int res = 0;
